@@ -464,7 +464,7 @@ func (g *gen) field(thisField, thatField string, fieldType types.Type) (string, 
 					// fall through to deferencing of pointers
 				}
 			} else {
-				return fmt.Sprintf("%s(%s, %s)", g.GetFuncName(typ, typ), thisField, thatField), nil
+				return fmt.Sprintf("%s(%s, %s)", g.GetFuncName(fieldType, fieldType), thisField, thatField), nil
 			}
 		}
 		eqStr, err := g.field("*("+thisField+")", "*("+thatField+")", ref)
@@ -473,14 +473,14 @@ func (g *gen) field(thisField, thatField string, fieldType types.Type) (string, 
 		}
 		return fmt.Sprintf("((%[1]s == nil && %[2]s == nil) || (%[1]s != nil && %[2]s != nil && %[3]s))", thisField, thatField, eqStr), nil
 	case *types.Array:
-		return fmt.Sprintf("%s(%s, %s)", g.GetFuncName(typ, typ), thisField, thatField), nil
+		return fmt.Sprintf("%s(%s, %s)", g.GetFuncName(fieldType, fieldType), thisField, thatField), nil
 	case *types.Slice:
 		if b, ok := typ.Elem().(*types.Basic); ok && b.Kind() == types.Byte {
 			return fmt.Sprintf("((%[2]s == nil) == (%[3]s == nil) && %[1]s.Equal(%[2]s, %[3]s))", g.bytesPkg(), thisField, thatField), nil
 		}
-		return fmt.Sprintf("%s(%s, %s)", g.GetFuncName(typ, typ), thisField, thatField), nil
+		return fmt.Sprintf("%s(%s, %s)", g.GetFuncName(fieldType, fieldType), thisField, thatField), nil
 	case *types.Map:
-		return fmt.Sprintf("%s(%s, %s)", g.GetFuncName(typ, typ), thisField, thatField), nil
+		return fmt.Sprintf("%s(%s, %s)", g.GetFuncName(fieldType, fieldType), thisField, thatField), nil
 	case *types.Struct:
 		if _, isNamed := fieldType.(*types.Named); !isNamed {
 			// an unnamed struct that cannot be compared with == gets its own equal function,
